@@ -755,6 +755,10 @@ func c11templates() [][2]string {
 	add("\tb := make([]byte, 3)\n\tn := 0\n\tcopy(b, \"héllo\")\n\tfor _, x := range b {\n\t\tn += int(x)\n\t}\n\tfmt.Println(b[0], b[1], b[2], n)\n", "104 195 169 468\n")
 	add("\ta := []int{1, 2, 3, 4}\n\tb := a[1:3]\n\tcopy(a, b)\n\tfmt.Println(a[0], a[1], a[2], a[3], b[0], b[1])\n", "2 3 3 4 3 3\n")
 	add("\ta := []int{1, 2, 3, 4}\n\tcopy(a[1:], a)\n\tfmt.Println(a[0], a[1], a[2], a[3])\n", "1 1 2 3\n")
+	// the value of copy: assigned, inside an expression, as an argument; nil and shorter operands; next to live locals
+	add("\ta := []int{1, 2, 3, 4}\n\tb := []int{9, 8}\n\tvar z []int\n\tn1 := copy(a, b)\n\tn2 := copy(b, a)\n\tn3 := copy(z, a)\n\tn4 := copy(a, z)\n\tn5 := copy(a[3:], b)\n\tfmt.Println(n1, n2, n3, n4, n5, a, b, copy(a[1:], a), a)\n", "2 2 0 0 1 [9 9 8 3] [9 8] 3 [9 9 8 3]\n")
+	add("\tb := make([]byte, 2)\n\tn := copy(b, \"héllo\")\n\tfmt.Println(n, b, 1+copy(b, \"x\")*2, b)\n", "2 [120 195] 3 [120 195]\n")
+	add("\tp, q := 5, 6\n\ta := []int{1, 2, 3}\n\tcopy(a, a[1:])\n\tn := copy(a, a[2:])\n\tfor i := 0; i < 2; i++ {\n\t\tn += copy(a[i:], a)\n\t\tcopy(a, a)\n\t}\n\tfmt.Println(p, q, n, a)\n", "5 6 6 [3 3 3]\n")
 	add("\ta := make([]int8, 1)\n\ta[0] = 127\n\ta[0]++\n\ta = append(a, -128)\n\ta[1]--\n\tfmt.Println(a[0], a[1])\n", "-128 127\n")
 	add("\ta := []uint32{4000000000}\n\ta = append(a, 4294967295)\n\ta[1]++\n\tfmt.Println(a[0], a[1])\n", "4000000000 0\n")
 	return out
